@@ -486,6 +486,26 @@ def check_contain(acc):
                         {"oracle": "error_block_holds_original_entry", "where": "name part beyond the field count"},
                         {"case": {"contain": "solo name parts", "encoder": enc, "inplace": ip, "last": failing}, "observed": repr(b)[:200], "expected": "MiddlewareErrorBlock holding the entry with all name parts"},
                     )
+            # a key held twice by a programmatically built entry: the failure of one occurrence is a failure of the entry,
+            # whichever occurrence it is and whatever the other one does
+            for bad_at in (0, 1, 2):
+                vals = ["fine a", "fine b", "fine c"]
+                vals[bad_at] = "BOOM here"
+                e2 = Entry("a", "twice", [Field("note", vals[0]), Field("other", vals[1]), Field("note", vals[2])], 0, "@a{twice}")
+                m2 = LatexEncodingMiddleware(encoder=Boom(), allow_inplace_modification=ip) if enc else LatexDecodingMiddleware(decoder=Boom(), allow_inplace_modification=ip)
+                acc.trace()
+                acc.case(nontrivial_key=("contain-twice", enc, ip, bad_at))
+                try:
+                    b = m2.transform(Library([e2])).blocks[0]
+                except Exception as ex:
+                    acc.violation({"oracle": "conversion_failure_contained", "exception": type(ex).__name__}, {"case": {"contain": "key held twice", "encoder": enc, "inplace": ip}, "observed": repr(ex), "expected": "a middleware-error block"})
+                    continue
+                inner = b.ignore_error_block if isinstance(b, MiddlewareErrorBlock) else None
+                if not (isinstance(inner, Entry) and [f.key for f in inner.fields] == ["note", "other", "note"] and inner.fields[bad_at].value == "BOOM here"):
+                    acc.violation(
+                        {"oracle": "error_block_holds_original_entry", "where": "a key held twice"},
+                        {"case": {"contain": "key held twice", "encoder": enc, "inplace": ip, "failing_occurrence": bad_at}, "observed": repr(b)[:200], "expected": "MiddlewareErrorBlock holding the entry with all three fields"},
+                    )
             for where in ("first_field", "last_field", "name_part", "string", "none"):
                 np = NameParts(first=["A", "BOOM" if where == "name_part" else "B"], last=["C"])
                 fields = [
